@@ -38,3 +38,15 @@ patch(H + 'c20.py', [
     ('epwheader.GROUND_THEOREMS', "    chk.proof(MODULE, THEOREMS)\n    if chk.tier == 'thorough':\n        chk.leanchecker([MODULE])",
      "    from props import epwheader\n    chk.proof(MODULE, THEOREMS + epwheader.GROUND_THEOREMS, extra_modules=[epwheader.MODULE])\n    if chk.tier == 'thorough':\n        chk.leanchecker([MODULE, epwheader.MODULE])"),
 ])
+patch(H + 'c17.py', [
+    ('generate.THEOREMS', "def run(chk):\n    chk.proof(MODULE, THEOREMS)", "def run(chk):\n    from props import generate\n    chk.proof(MODULE, THEOREMS + generate.THEOREMS, extra_modules=[generate.MODULE])"),
+])
+# c17: run_generate as the last statement of run()
+p17 = H + 'c17.py'
+s17 = open(p17).read()
+if 'generate.run_generate(chk)' not in s17:
+    i = s17.index('def run(chk):')
+    j = s17.find('\ndef ', i + 10)
+    body = (s17[i:j] if j > 0 else s17[i:]).rstrip('\n') + "\n    # composition E: generate() as one Lean function, tied exactly to the real generate()\n    generate.run_generate(chk)\n"
+    s17 = s17[:i] + body + ("\n\n" + s17[j + 1:] if j > 0 else "")
+    open(p17, 'w').write(s17); print('patched c17 tail')
